@@ -102,9 +102,28 @@ def check_case(case):
     skeys = tuple(sorted(settings)) if settings else ()
     clock.freeze(NOW)
     outcome = None
+    pkw = {k: v for k, v in kw.items() if k in ("languages", "locales", "region")}
+    if invalid in SETTINGS_INVALID:
+        # an invalid setting must be rejected by EVERY entry point, whatever the date string is
+        try:
+            for label, fn in (("dateparser.parse", lambda: dateparser.parse(s_arg, date_formats=formats, settings=settings, **pkw)),
+                              ("DateDataParser", lambda: DateDataParser(settings=settings, **kw).get_date_data(s_arg, formats))):
+                try:
+                    got = fn()
+                except (TypeError, ValueError):
+                    continue
+                except Exception as e:
+                    return _crash(case, e, cls, skeys, lk)
+                return {"ok": False, "bucket": "invalid-accepted:%s:%s" % (invalid, label),
+                        "detail": "%s(%r, date_formats=%r, settings=%r, %r) accepted invalid settings (%s) and returned %r"
+                                  % (label, s_arg, formats, case["settings"], kw, invalid, got),
+                        "key": (case["sclass"], "exc", skeys, lk, invalid), "cls": cls}
+        finally:
+            clock.freeze(None)
+        cls.append("outcome:documented-exception")
+        return {"ok": True, "key": (case["sclass"], "exc", skeys, lk, invalid), "cls": cls}
     try:
         try:
-            pkw = {k: v for k, v in kw.items() if k in ("languages", "locales", "region")}
             r1 = dateparser.parse(s_arg, date_formats=formats, settings=settings, **pkw)
             p = DateDataParser(settings=settings, **kw)
             dd = p.get_date_data(s_arg, formats)
@@ -338,7 +357,9 @@ def cases(draw):
         c["invalid"] = inv
         # invalid arguments must be rejected whatever the string is: bias to strings that return early
         if draw(st.booleans()):
-            c["s"], c["sclass"] = draw(st.sampled_from([("1500000000", "digits"), ("2015-02-03", "corpus"), ("", "unicode"), ("yesterday", "corpus")]))
+            c["s"], c["sclass"] = draw(st.sampled_from([("1500000000", "digits"), ("2015-02-03", "corpus"), ("", "unicode"), ("yesterday", "corpus"),
+                                                        (" ", "unicode"), ("\t\n", "unicode"), ("\xa0", "unicode"), ("\u3000", "unicode"), ("-", "digits"),
+                                                        ("12345678901234567890", "digits"), ("\x00", "unicode")]))
             if draw(st.booleans()):
                 c["s"], c["formats"] = "2015-02-03", ["%Y-%m-%d"]
         st_ = dict(settings or {})
